@@ -74,6 +74,15 @@ type nestCase struct {
 	Path     string    `json:"path"`  // writer | buffer | rows
 	PageBuf  int       `json:"page_buffer"`
 	Rows     []nestRow `json:"rows"`
+	plus
+}
+
+func (nc *nestCase) writerOptions() []parquet.WriterOption {
+	opts := []parquet.WriterOption{parquet.DataPageVersion(nc.PageV)}
+	if nc.PageBuf > 0 {
+		opts = append(opts, parquet.PageBufferSize(nc.PageBuf))
+	}
+	return append(opts, nc.plus.writerOptions()...)
 }
 
 // nestVals is a row in the form the adapters exchange.
@@ -142,6 +151,7 @@ func mkOptRep(v nestVals[any]) nOptRep[any] {
 type nestLayout struct {
 	s        *sch
 	schema   *parquet.Schema
+	fschema  *parquet.Schema // the file as stored when a leaf has the layout of another writer (else nil)
 	conv     *parquet.Schema // target of the conversion to unshredded (nil: the schema of the Go type)
 	path     []string
 	rep      int
@@ -159,39 +169,39 @@ func (nc *nestCase) build() (l *nestLayout, rows [][]*tree, err error) {
 	if l.s, err = parseSch(nc.Schema); err != nil {
 		return
 	}
-	var node parquet.Node
-	if l.s.Kind == 'N' {
-		node = parquet.Variant()
-	} else if node, err = parquet.ShreddedVariant(l.s.typedNode()); err != nil {
-		return
-	}
 	l.optional = nc.Optional && nc.Nest != "repvar"
-	if l.optional {
-		node = parquet.Optional(node)
+	l.path, l.rep, l.def, _ = nestLevels(nc.Nest)
+	mk := func(o nodeOpts) (*parquet.Schema, error) {
+		var node parquet.Node
+		if l.s.Kind == 'N' {
+			node = parquet.Variant()
+		} else {
+			var e error
+			if node, e = parquet.ShreddedVariant(l.s.node(o)); e != nil {
+				return nil, e
+			}
+		}
+		if l.optional {
+			node = parquet.Optional(node)
+		}
+		switch nc.Nest {
+		case "rep", "list", "repvar", "opt", "optrep":
+		default:
+			return nil, fmt.Errorf("unknown nesting %q", nc.Nest)
+		}
+		return evoSchema(nc.Nest, node, true, nil, nil, 0), nil
 	}
-	root := parquet.Group{"id": parquet.Int(32)}
-	switch nc.Nest {
-	case "rep":
-		root["items"] = parquet.Repeated(parquet.Group{"var": node})
-		l.path, l.rep, l.def = []string{"items", "var"}, 1, 1
-	case "list":
-		root["items"] = parquet.List(node)
-		l.path, l.rep, l.def = []string{"items", "list", "element"}, 1, 1
-	case "repvar":
-		root["vars"] = parquet.Repeated(node)
-		l.path, l.rep, l.def = []string{"vars"}, 1, 1
-		l.conv = parquet.NewSchema("table", parquet.Group{"id": parquet.Int(32), "vars": parquet.Repeated(parquet.Variant())})
-	case "opt":
-		root["og"] = parquet.Optional(parquet.Group{"var": node})
-		l.path, l.rep, l.def = []string{"og", "var"}, 0, 0
-	case "optrep":
-		root["og"] = parquet.Optional(parquet.Group{"items": parquet.Repeated(parquet.Group{"var": node})})
-		l.path, l.rep, l.def = []string{"og", "items", "var"}, 1, 2
-	default:
-		err = fmt.Errorf("unknown nesting %q", nc.Nest)
+	if l.schema, err = mk(nodeOpts{dict: nc.Dict == "typed"}); err != nil {
 		return
 	}
-	l.schema = parquet.NewSchema("table", root)
+	if l.s.foreign() {
+		if l.fschema, err = mk(nodeOpts{dict: nc.Dict == "typed", foreign: true}); err != nil {
+			return
+		}
+	}
+	if nc.Nest == "repvar" {
+		l.conv = parquet.NewSchema("table", parquet.Group{"id": parquet.Int(32), "vars": parquet.Repeated(parquet.Variant())})
+	}
 	for _, r := range nc.Rows {
 		var items []*tree
 		if nc.Nest == "opt" && !r.Absent && len(r.Items) != 1 {
@@ -215,17 +225,24 @@ func (nc *nestCase) build() (l *nestLayout, rows [][]*tree, err error) {
 	return
 }
 
-func nestWrite[T any](nc *nestCase, schema *parquet.Schema, in []T) (data []byte, err error) {
+func nestWrite[T any](nc *nestCase, l *nestLayout, in []T) (data []byte, err error) {
 	defer func() {
 		if r := recover(); r != nil {
 			err = fmt.Errorf("panic: %v", r)
 		}
 	}()
-	buf := new(bytes.Buffer)
-	opts := []parquet.WriterOption{schema, parquet.DataPageVersion(nc.PageV)}
-	if nc.PageBuf > 0 {
-		opts = append(opts, parquet.PageBufferSize(nc.PageBuf))
+	schema := l.schema
+	if l.fschema != nil {
+		// the layout of another writer: the library shreds the rows, the leaf
+		// values are re-laid out and stored through the row API
+		dec := make([]parquet.Row, len(in))
+		for i := range in {
+			dec[i] = schema.Deconstruct(nil, &in[i])
+		}
+		return writeForeign(schema, l.fschema, dec, l.s.leafWidths(l.path), nc.writerOptions())
 	}
+	buf := new(bytes.Buffer)
+	opts := append([]parquet.WriterOption{schema}, nc.writerOptions()...)
 	w := parquet.NewGenericWriter[T](buf, opts...)
 	switch nc.Path {
 	case "buffer":
@@ -416,118 +433,199 @@ func checkNestedT[TA, TP, TR any](c *core.Ctx, nc *nestCase, ad nestAdapters[TA,
 		}
 		in[i] = ad.mk(v)
 	}
-	data, err := nestWrite(nc, l.schema, in)
+	data, err := nestWrite(nc, l, in)
 	if err != nil {
 		c.Violation("file-write-error", fmt.Sprintf("writing %s: %v", where, err), nc)
 		return
 	}
-	// shape of a row read back: absent flag and number of items
-	shape := func(form string, i int, absent bool, k int) bool {
-		if absent != nc.Rows[i].Absent || k != len(rows[i]) {
-			desc := func(a bool, k int) string {
-				if a {
-					return "an absent group"
-				}
-				return fmt.Sprintf("%d items", k)
-			}
-			c.Violation(map[string]string{"typed": "typed-read-differs", "raw": "raw-read-differs", "convert-to-unshredded": "raw-read-differs"}[form],
-				fmt.Sprintf("%s, %s read: row %d reads back with %s, written with %s", where, form, i, desc(absent, k), desc(nc.Rows[i].Absent, len(rows[i]))), nc)
-			return false
-		}
-		return true
+	rschema := l.schema
+	if l.fschema != nil {
+		rschema = l.fschema
 	}
-	// typed read
-	if out, err := nestRead[TA](data, l.schema, n); err != nil {
-		c.Violation("typed-read-error", where+": "+err.Error(), nc)
-	} else {
-	typed:
-		for i := range out {
-			v := ad.getA(out[i])
-			if v.id != int32(i) {
-				c.Violation("typed-read-differs", fmt.Sprintf("%s, typed read: row %d has id %d", where, i, v.id), nc)
-				break
+	// flat: the rows as (value or nil) per row, for the columnar API, which
+	// reaches variant columns that are not below a repeated field
+	var flat []*tree
+	var flatWant []string
+	anyAbsent := false
+	if nc.Nest == "opt" {
+		for i, items := range rows {
+			if nc.Rows[i].Absent {
+				anyAbsent = true
+				flat, flatWant = append(flat, nil), append(flatWant, "")
+				continue
 			}
-			if !shape("typed", i, v.absent, len(v.items)) {
-				break
-			}
-			for j, x := range v.items {
-				exp := "nil"
-				if rows[i][j] != nil {
-					exp = anyText(rows[i][j].goAny())
-				}
-				if got := anyText(x); got != exp {
-					c.Violation("typed-read-differs", fmt.Sprintf("%s, typed read: row %d item %d reads back as %s, want %s", where, i, j, core.Trunc(got, 300), core.Trunc(exp, 300)), nc)
-					break typed
-				}
-			}
+			flat, flatWant = append(flat, items[0]), append(flatWant, want[i][0])
 		}
 	}
-	decodeRaw := func(form string, i, j int, meta, val []byte, null bool) bool {
-		bad := func(got string) bool {
-			c.Violation("raw-read-differs", fmt.Sprintf("%s, %s read: row %d item %d reads back as %s, written %s", where, form, i, j, core.Trunc(got, 300), core.Trunc(want[i][j], 300)), nc)
-			return false
+	verify := func(data []byte, schema *parquet.Schema, where string) {
+		if o := nc.plus.text(); o != "" {
+			where += " " + o
 		}
-		if null || (len(meta) == 0 && len(val) == 0) {
-			if want[i][j] != "" {
-				return bad("null")
+		// shape of a row read back: absent flag and number of items
+		shape := func(form string, i int, absent bool, k int) bool {
+			if absent != nc.Rows[i].Absent || k != len(rows[i]) {
+				desc := func(a bool, k int) string {
+					if a {
+						return "an absent group"
+					}
+					return fmt.Sprintf("%d items", k)
+				}
+				c.Violation(map[string]string{"typed": "typed-read-differs", "raw": "raw-read-differs", "convert-to-unshredded": "raw-read-differs"}[form],
+					fmt.Sprintf("%s, %s read: row %d reads back with %s, written with %s", where, form, i, desc(absent, k), desc(nc.Rows[i].Absent, len(rows[i]))), nc)
+				return false
 			}
 			return true
 		}
-		t, err := goDecode(meta, val)
-		if err != nil {
-			return bad("undecodable bytes (" + err.Error() + ")")
+		// typed read
+		if out, err := nestRead[TA](data, schema, n); err != nil {
+			c.Violation("typed-read-error", where+": "+err.Error(), nc)
+		} else {
+		typed:
+			for i := range out {
+				v := ad.getA(out[i])
+				if v.id != int32(i) {
+					c.Violation("typed-read-differs", fmt.Sprintf("%s, typed read: row %d has id %d", where, i, v.id), nc)
+					break
+				}
+				if !shape("typed", i, v.absent, len(v.items)) {
+					break
+				}
+				for j, x := range v.items {
+					exp := "nil"
+					if rows[i][j] != nil {
+						exp = anyText(rows[i][j].goAny())
+					}
+					if got := anyText(x); got != exp {
+						c.Violation("typed-read-differs", fmt.Sprintf("%s, typed read: row %d item %d reads back as %s, want %s", where, i, j, core.Trunc(got, 300), core.Trunc(exp, 300)), nc)
+						break typed
+					}
+				}
+			}
 		}
-		if got := t.canonText(); got != want[i][j] {
-			return bad(got)
-		}
-		if c.HasOracle() && want[i][j] != "" {
-			if back := c.Ask("c19.decode " + core.Hexs(meta) + " " + core.Hexs(val)); back != want[i][j] {
-				c.Mismatch("corr:C19.decode-readback", form+" read bytes", want[i][j], back, nc)
+		decodeRaw := func(form string, i, j int, meta, val []byte, null bool) bool {
+			bad := func(got string) bool {
+				c.Violation("raw-read-differs", fmt.Sprintf("%s, %s read: row %d item %d reads back as %s, written %s", where, form, i, j, core.Trunc(got, 300), core.Trunc(want[i][j], 300)), nc)
 				return false
 			}
-		}
-		return true
-	}
-	// raw read through the file's own schema
-	if out, err := nestRead[TP](data, l.schema, n); err != nil {
-		c.Violation("raw-read-error", where+": "+err.Error(), nc)
-	} else {
-	raw:
-		for i := range out {
-			v := ad.getP(out[i])
-			if !shape("raw", i, v.absent, len(v.items)) {
-				break
-			}
-			for j, x := range v.items {
-				var m, b []byte
-				if x != nil {
-					m, b = x.Metadata, x.Value
+			if null || (len(meta) == 0 && len(val) == 0) {
+				if want[i][j] != "" {
+					return bad("null")
 				}
-				if !decodeRaw("raw", i, j, m, b, x == nil) {
-					break raw
+				return true
+			}
+			t, err := goDecode(meta, val)
+			if err != nil {
+				return bad("undecodable bytes (" + err.Error() + ")")
+			}
+			if got := t.canonText(); got != want[i][j] {
+				return bad(got)
+			}
+			if c.HasOracle() && want[i][j] != "" {
+				if back := c.Ask("c19.decode " + core.Hexs(meta) + " " + core.Hexs(val)); back != want[i][j] {
+					c.Mismatch("corr:C19.decode-readback", form+" read bytes", want[i][j], back, nc)
+					return false
 				}
 			}
+			return true
 		}
-	}
-	// conversion to an unshredded variant column at the same place
-	if out, err := nestRead[TR](data, l.conv, n); err != nil {
-		c.Violation("convert-read-error", where+": "+err.Error(), nc)
-	} else {
-	conv:
-		for i := range out {
-			v := ad.getR(out[i])
-			if !shape("convert-to-unshredded", i, v.absent, len(v.items)) {
-				break
+		// raw read through the file's own schema
+		if out, err := nestRead[TP](data, schema, n); err != nil {
+			c.Violation("raw-read-error", where+": "+err.Error(), nc)
+		} else {
+		raw:
+			for i := range out {
+				v := ad.getP(out[i])
+				if !shape("raw", i, v.absent, len(v.items)) {
+					break
+				}
+				for j, x := range v.items {
+					var m, b []byte
+					if x != nil {
+						m, b = x.Metadata, x.Value
+					}
+					if !decodeRaw("raw", i, j, m, b, x == nil) {
+						break raw
+					}
+				}
 			}
-			for j, x := range v.items {
-				if !decodeRaw("convert-to-unshredded", i, j, x.Metadata, x.Value, false) {
-					break conv
+		}
+		// conversion to an unshredded variant column at the same place
+		if out, err := nestRead[TR](data, l.conv, n); err != nil {
+			c.Violation("convert-read-error", where+": "+err.Error(), nc)
+		} else {
+		conv:
+			for i := range out {
+				v := ad.getR(out[i])
+				if !shape("convert-to-unshredded", i, v.absent, len(v.items)) {
+					break
+				}
+				for j, x := range v.items {
+					if !decodeRaw("convert-to-unshredded", i, j, x.Metadata, x.Value, false) {
+						break conv
+					}
+				}
+			}
+		}
+		// the columnar reader
+		if nc.Nest == "opt" {
+			got, err := colRead(data, l.s, l.path, nc.Window, nc.Late)
+			switch {
+			case err != nil:
+				c.Violation("columnar-read-error", where+", columnar read: "+err.Error(), nc)
+			case len(got) != n:
+				c.Violation("columnar-read-error", fmt.Sprintf("%s, columnar read: %d of %d rows", where, len(got), n), nc)
+			default:
+				for i := range got {
+					if got[i] != flatWant[i] {
+						g, w := got[i], flatWant[i]
+						if g == "" {
+							g = "null"
+						}
+						if w == "" {
+							w = "null"
+						}
+						c.Violation("columnar-read-differs", fmt.Sprintf("%s, columnar read: row %d reads back as %s, written %s", where, i, core.Trunc(g, 300), core.Trunc(w, 300)), nc)
+						break
+					}
 				}
 			}
 		}
 	}
+	verify(data, rschema, where)
+
+	// the same rows through the columnar writer (it cannot write an absent enclosing group)
+	if nc.Nest == "opt" && !anyAbsent && l.fschema == nil {
+		data2, err := colWrite(l.schema, l.path, flat, nil, l.optional, nc.writerOptions())
+		if err != nil {
+			c.Violation("columnar-write-error", fmt.Sprintf("schema %s below opt optional=%v: VariantColumnWriter: %v", nc.Schema, l.optional, err), nc)
+		} else {
+			verify(data2, l.schema, fmt.Sprintf("schema %s below %s optional=%v v%d columnar write", nc.Schema, nc.Nest, l.optional, nc.PageV))
+		}
+	}
+
+	// reader schemas that add / drop / reorder columns around the variant column
+	if nc.Evo != nil {
+		narrow := make([]parquet.Row, n)
+		if err := protect(func() error {
+			for i := range in {
+				narrow[i] = l.schema.Deconstruct(nil, &in[i])
+			}
+			return nil
+		}); err != nil {
+			c.Violation("file-write-error", "Deconstruct: "+err.Error(), nc)
+			return
+		}
+		absent := make([]bool, n)
+		for i := range absent {
+			absent[i] = nc.Rows[i].Absent
+		}
+		checkEvolve(c, &evoCtx{nest: nc.Nest, path: l.path, s: l.s, dict: nc.Dict == "typed", optional: l.optional,
+			narrow: l.schema, rows: narrow, want: want, absent: absent, opts: nc.writerOptions(), evo: nc.Evo,
+			where: fmt.Sprintf("schema %s below %s optional=%v v%d", nc.Schema, nc.Nest, l.optional, nc.PageV), replay: nc})
+	}
+
 	// what the file stores, item by item == the model's shredding of the item
-	if !c.HasOracle() {
+	if !c.HasOracle() || l.fschema != nil {
 		return
 	}
 	cols, ncols, err := nestColumns(data, l, n)
@@ -657,7 +755,25 @@ func shrinkNested(c *core.Ctx, nc *nestCase) *nestCase {
 			}
 		}
 	}
+	if cur.Evo != nil {
+		for changed := true; changed; {
+			changed = false
+			for _, e := range cur.Evo.simpler() {
+				t := cur
+				t.Rows = cloneRows(cur.Rows)
+				t.Evo = e
+				if fails(&t) {
+					cur, changed = t, true
+					break
+				}
+			}
+		}
+	}
 	for _, simpler := range []func(*nestCase){
+		func(x *nestCase) { x.Evo = nil },
+		func(x *nestCase) { x.Dict, x.DictMax = "", 0 },
+		func(x *nestCase) { x.Late = false },
+		func(x *nestCase) { x.Window = 0 },
 		func(x *nestCase) { x.Optional = false },
 		func(x *nestCase) { x.Path = "writer" },
 		func(x *nestCase) { x.PageBuf = 0 },
@@ -722,6 +838,9 @@ func (s *sch) simpler() []*sch {
 			}
 		}
 	case 'P':
+		if s.Width != 0 {
+			out = append(out, &sch{Kind: 'P', Prim: s.Prim, Plain: s.Plain}) // the library's own layout
+		}
 		if s.Prim != "i3" || s.Plain {
 			out = append(out, &sch{Kind: 'P', Prim: "i3"})
 		}
@@ -760,6 +879,7 @@ func (g *gen) nested(i int) *nestCase {
 	if r.Intn(3) == 0 {
 		nc.PageBuf = 64 + r.Intn(400)
 	}
+	nc.plus = g.plus(nc.Nest, false)
 	item := func() string {
 		if r.Intn(8) == 0 {
 			return ""
